@@ -623,6 +623,11 @@ impl Scenario for AesSc {
             if rz.chance(1, 5) {
                 e.gp_hint = rz.pickc(&[2u16, 4, 6]);
             }
+            if rz.chance(1, 4) {
+                // written by a streaming encryptor: bit 3 set, CRC and sizes in a data descriptor behind the data
+                // (the central header still carries them - and what it carries is what AE-1 / AE-2 is judged on)
+                e.dd = rz.range(1, 4) as u8;
+            }
             if rz.chance(1, 5) {
                 let rec = real_world_records(&mut rz, &e.name.0, &[], false);
                 e.extra_central = Hex(rec.clone());
